@@ -253,27 +253,19 @@ Section Compare.
     unfold lift, dt_sub. rewrite Hnaive, Tn, Wn. reflexivity.
   Qed.
 
-  (* is_soon takes a datetime only; [now + window] must be representable *)
-  Theorem soon_iff : t = TDt d -> in_range (wall now + s) = true ->
+  (* [now + window] must be representable *)
+  Theorem soon_iff : in_range (wall now + s) = true ->
     exists b, is_soon t s w = (Ok b, w) /\ (b = true <-> instant d <= wall now + s).
   Proof.
-    intros Ht Hr. destruct (normalize_result d Hnorm) as (n & En & Tn & Wn).
+    intros Hr. destruct (normalize_result d Hnorm) as (n & En & Tn & Wn).
     exists (instant d <=? wall now + s). split; [|lia].
-    unfold is_soon, bindM. rewrite (override_returns_instant w now false Hov).
+    unfold is_soon, bindM. rewrite (targ_to_dt_resolves w t d Hres).
+    rewrite (override_returns_instant w now false Hov).
     unfold lift at 1. unfold dt_add_td, td_of_seconds. rewrite Hr.
-    subst t. unfold lift at 1. cbn [as_dt]. unfold lift at 1. rewrite En.
+    unfold lift at 1. rewrite En.
     unfold lift, dt_le, dt_cmp. cbn [tz wall]. rewrite Hnaive, Tn, Wn. reflexivity.
   Qed.
-
 End Compare.
-
-(* ... and with a string it raises AttributeError instead (finding soon-str) *)
-Theorem soon_str_raises w now str_ s : ov w = One now -> in_range (wall now + s) = true ->
-  is_soon (TStr str_) s w = (Exn AttributeError, w).
-Proof.
-  intros Hov Hr. unfold is_soon, bindM. rewrite (override_returns_instant w now false Hov).
-  unfold lift at 1. unfold dt_add_td, td_of_seconds. rewrite Hr. reflexivity.
-Qed.
 
 (* ------------------------------------------------------------------ marshalling *)
 
@@ -378,13 +370,7 @@ Proof.
   cbn. f_equal. f_equal. lia.
 Qed.
 
-(* ------------------------------------------------------------------ the statement of the comparison clause for every kind
-   of argument, and its refutation for is_soon with a string (finding soon-str) *)
-Definition soon_full_statement : Prop :=
-  forall w now t d s, ov w = One now -> tz now = None -> resolves w t d -> normalizable d = true ->
-    in_range (wall now + s) = true ->
-    exists b, is_soon t s w = (Ok b, w) /\ (b = true <-> instant d <= wall now + s).
-
+(* ------------------------------------------------------------------ examples *)
 (* non-vacuity: a concrete world.  Clock overridden to 2020-01-01T00:00:00; the parser
    oracle answers 2020-01-01T00:00:00+01:00; the zone database knows UTC *)
 Definition ex_now : dt := naive 63713433600000000.
@@ -392,18 +378,12 @@ Definition ex_d : dt := mkDt 63713433600000000 (Some (mkTz 3600000000 (Some (lit
 Definition ex_w : world := mkW (One ex_now) 5 (fun _ => Ok ex_d) (fun _ => Ok (mkZone (fun _ => 0) (Some utc_name))).
 Definition ex_s : str := lit "2020-01-01T00:00:00+01:00".
 
-Theorem soon_str_refuted : ~ soon_full_statement.
-Proof.
-  intros H. destruct (H ex_w ex_now (TStr ex_s) ex_d 0 eq_refl eq_refl eq_refl eq_refl eq_refl) as (b & E & _).
-  rewrite (soon_str_raises ex_w ex_now ex_s 0 eq_refl eq_refl) in E. clear -E. discriminate E.
-Qed.
-
 (* ex_d is one hour before the clock: older than 3599.999999 s, not older than 3600 s *)
 Example older_ex : is_older_than (TStr ex_s) 3599999999 ex_w = (Ok true, ex_w) /\ is_older_than (TDt ex_d) 3600000000 ex_w = (Ok false, ex_w).
 Proof. split; reflexivity. Qed.
 Example newer_ex : is_newer_than (TStr ex_s) (-3600000001) ex_w = (Ok true, ex_w) /\ is_newer_than (TDt ex_d) (-3600000000) ex_w = (Ok false, ex_w).
 Proof. split; reflexivity. Qed.
-Example soon_ex : is_soon (TDt ex_d) (-3600000000) ex_w = (Ok true, ex_w) /\ is_soon (TDt ex_d) (-3600000001) ex_w = (Ok false, ex_w).
+Example soon_ex : is_soon (TStr ex_s) (-3600000000) ex_w = (Ok true, ex_w) /\ is_soon (TDt ex_d) (-3600000001) ex_w = (Ok false, ex_w).
 Proof. split; vm_compute; reflexivity. Qed.
 Example compare_hyps_ex : ov ex_w = One ex_now /\ tz ex_now = None /\ resolves ex_w (TStr ex_s) ex_d /\ resolves ex_w (TDt ex_d) ex_d /\
                           normalizable ex_d = true /\ in_range (wall ex_now + (-3600000000)) = true.
